@@ -670,8 +670,97 @@ fn static_scan() -> Vec<String> {
     hits
 }
 
+/// Builder call order: the built muxer depends on the *set* of settings, not on the order in
+/// which the setters were called nor on which alias was used. Every permutation of the setter
+/// calls x every alias choice is compared byte-for-byte with the canonical order.
+pub fn builder_orders_part(t: &mut Tally, prop: &str) {
+    #[derive(Clone, Copy, Debug)]
+    enum S {
+        Video(bool),
+        Audio(bool),
+        Fast,
+        Meta(u8),
+    }
+    let mut k = 0u64;
+    for codec in [VCodec::H264, VCodec::Vp9] {
+        for fast in [true, false] {
+            for audio in [None, Some(ACodec::AacLc)] {
+                for meta in [false, true] {
+                    let cfg = Cfg { meta: if meta { Some(MMeta { title: Some("order".into()), time: Some(86_400 * 365), lang: Some("deu".into()) }) } else { None }, ..Cfg::basic(codec, audio, fast) };
+                    let mut ops = vec![];
+                    for i in 0..2u32 {
+                        ops.push(Op::WV { pts: T(i as f64 / 30.0), data: Bytes::new(video_frame(codec, i == 0, i == 0, i + 1, 5).0), key: i == 0 });
+                    }
+                    if let Some(a) = audio {
+                        ops.push(Op::WA { pts: T(0.01), data: Bytes::new(audio_frame(a, 1, 6).0) });
+                    }
+                    let reference = {
+                        let s = RecSink::default();
+                        let st = s.0.clone();
+                        let r = run_on(builder(&cfg, s), &ops, &Op::FinishInPlace);
+                        let b = st.borrow().bytes.clone();
+                        (r, b)
+                    };
+                    // setter lists: one per alias choice and metadata style
+                    let mut lists: Vec<Vec<S>> = vec![];
+                    for va in [false, true] {
+                        for aa in [false, true] {
+                            for ms in 0..2u8 {
+                                if (audio.is_none() && aa) || (!meta && ms > 0) {
+                                    continue;
+                                }
+                                let mut l = vec![S::Video(va), S::Fast];
+                                if audio.is_some() {
+                                    l.push(S::Audio(aa));
+                                }
+                                if meta {
+                                    l.push(S::Meta(ms));
+                                }
+                                lists.push(l);
+                            }
+                        }
+                    }
+                    for l in &lists {
+                        for perm in hist::permutations(l.len()) {
+                            let order: Vec<S> = perm.iter().map(|&i| l[i]).collect();
+                            k += 1;
+                            t.evaluations += 1;
+                            let s = RecSink::default();
+                            let st = s.0.clone();
+                            let mut b = MuxerBuilder::new(s);
+                            for step in &order {
+                                b = match *step {
+                                    S::Video(false) => b.video(vcodec(codec), cfg.width, cfg.height, 30.0),
+                                    S::Video(true) => b.set_video_track(vcodec(codec), cfg.width, cfg.height, 30.0),
+                                    S::Audio(al) => {
+                                        let a = cfg.audio.as_ref().unwrap();
+                                        if al { b.set_audio_track(acodec(a.codec), a.rate, a.channels) } else { b.audio(acodec(a.codec), a.rate, a.channels) }
+                                    }
+                                    S::Fast => b.with_fast_start(fast),
+                                    // style 0: one with_metadata call; style 1: with_metadata(title) then the two setters
+                                    S::Meta(0) => b.with_metadata(metadata(cfg.meta.as_ref().unwrap())),
+                                    S::Meta(_) => b.with_metadata(Metadata::new().with_title("order")).set_create_time(86_400 * 365).set_language("deu"),
+                                };
+                            }
+                            let r = run_on(b, &ops, &Op::FinishInPlace);
+                            let bytes = st.borrow().bytes.clone();
+                            t.outcome(oracle::report::h64(&bytes));
+                            if r != reference.0 || bytes != reference.1 {
+                                let what = if r != reference.0 { "results" } else { "bytes" };
+                                t.violation(&format!("{prop}/builder-order/{what}"), (3000, k), || format!("{}: setter order {order:?} gives different {what} than video, audio, with_metadata, with_fast_start (top-level layout or content differs; {} vs {} bytes)", cfg.short(), bytes.len(), reference.1.len()), || json!({"engine": "E1-builder-order", "cfg": cfg, "order": format!("{order:?}")}));
+                            }
+                        }
+                    }
+                }
+            }
+        }
+    }
+    t.count("builder_order_variants", k);
+}
+
 pub fn check(ctx: &Ctx) -> i32 {
     let mut tally = Tally::default();
+    builder_orders_part(&mut tally, "C17");
     if let Err(e) = schedules_part(ctx, &mut tally) {
         eprintln!("E4 machinery failure: {e}");
         return 2;
@@ -702,7 +791,7 @@ pub fn check(ctx: &Ctx) -> i32 {
         &tally,
         Meta {
             level: "model_checking",
-            rule: "thread schedules: real OS threads run under a baton scheduler with scheduling points before every public call, inside every sink write and around every invariant-log call; all schedules up to the stated preemption bound are enumerated by stateless DFS (counts in 'counters'), each program's results, output bytes and thread-local invariant log must equal its solo run, and replaying a schedule must reproduce its record; 4 threads: every order of whole programs; 8 and 16 threads: round-robin. Same thread: every interleaving at call granularity of every ordered pair of 4 programs on one thread. Equivalent paths: for every history of a bounded accepted-only set x 20 configurations, the output of a reference run is compared byte-for-byte with a second instance, the four other finish entry points, the builder aliases, audio codec None, six sink types (incl. sinks accepting 1 or 5 bytes per write), and a muxer moved to another thread halfway; encode_video/encode_audio vs explicit writes at exactly computed ticks for duration patterns up to the long run. Wall clock: the same digest of outputs under an LD_PRELOAD clock offset of 0 and +10 years (child processes). The auto-trait implication (Muxer<W>: Send for every W: Send; Sync likewise) is a generic function in this harness: it is the compiler's verdict, a build failure of the harness otherwise.".into(),
+            rule: "thread schedules: real OS threads run under a baton scheduler with scheduling points before every public call, inside every sink write and around every invariant-log call; all schedules up to the stated preemption bound are enumerated by stateless DFS (counts in 'counters'), each program's results, output bytes and thread-local invariant log must equal its solo run, and replaying a schedule must reproduce its record; 4 threads: every order of whole programs; 8 and 16 threads: round-robin. Same thread: every interleaving at call granularity of every ordered pair of 4 programs on one thread. Equivalent paths: for every history of a bounded accepted-only set x 20 configurations, the output of a reference run is compared byte-for-byte with a second instance, the four other finish entry points, the builder aliases, audio codec None, six sink types (incl. sinks accepting 1 or 5 bytes per write), and a muxer moved to another thread halfway; builder order: every permutation of the setter calls (video, audio, fast start, metadata) x alias choices x 16 configurations against the canonical order; encode_video/encode_audio vs explicit writes at exactly computed ticks for duration patterns up to the long run. Wall clock: the same digest of outputs under an LD_PRELOAD clock offset of 0 and +10 years (child processes). The auto-trait implication (Muxer<W>: Send for every W: Send; Sync likewise) is a generic function in this harness: it is the compiler's verdict, a build failure of the harness otherwise.".into(),
             bound: format!("preemption bounds as listed per setup in counters; thorough={}", ctx.thorough),
             exhaustive: true,
             assumptions: vec![
